@@ -55,6 +55,7 @@ RULE = ("one evaluation = one simulated file-system world with one logical "
         "instant (paths), or at least one fault fired (faults); distinct = "
         "distinct SHA-1 of the full event history")
 EXPECTED_PROBES = ["load.sibling", "load.pickle_after_file_changed",
+                   "archive_order.links_first", "archive_order.sorted",
                    "load.gettz_env",
                    "load.gettz_name", "load.gettz_second", "load.gettz_space",
                    "load.gettz_colon", "load.gettz_abs", "load.tzfile_path",
@@ -292,6 +293,15 @@ def gen_loads(rng, n):
             loads.append(["pickle_moved", rng.randrange(len(loads)),
                           rng.choice([2, 3, 4, 5]),
                           rng.choice(["replace", "remove"])])
+        elif r < 0.94:
+            # the file is replaced by ANOTHER zone of the same length (with
+            # or without a changed modification time) between two loads by
+            # name: the second load must decode the bytes that are there now
+            loads.append(["reload_replaced",
+                          rng.choice(["tzfile_path", "nocache_abs",
+                                      "nocache_name", "after_clear"]),
+                          rng.choice(["same_stamp", "same_stamp",
+                                      "new_stamp"])])
         else:
             loads.append([rng.choice(["copy", "deepcopy"]),
                           rng.randrange(len(loads))])
@@ -328,7 +338,9 @@ def generate(cls, rng):
     else:
         zone = gen_zone(rng)
     sc = dict(zone=zone, ops=gen_loads(rng, rng.randrange(2, 9)),
-              probe_seed=rng.getrandbits(30))
+              probe_seed=rng.getrandbits(30),
+              archive_order=rng.choice(["links_last", "links_first",
+                                        "sorted", "reversed"]))
     if cls == "faults" and rng.random() < 0.2:
         # focused: a stream that delivers every field whole except the
         # abbreviation table, and data without indicator bytes after it
@@ -463,6 +475,12 @@ def probe_instants(ref, seed, everything=False):
     for j in js:
         for d in (-7200, -3600, -1800, -1, 0, 1, 1800, 3600, 7200):
             out.append(tr[j] + d)
+        # instants are not whole seconds: the last half second (and the
+        # last microsecond) before a transition still belong to the old type
+        out.append(tr[j] - 0.5)
+        if j % 3 == 0:
+            out.append(tr[j] - 0.000001)
+            out.append(tr[j] + 0.25)
         if j + 1 < len(tr):
             out.append((tr[j] + tr[j + 1]) // 2)
     out.append(tr[0] - 86400)
@@ -498,7 +516,7 @@ def wall_preimages(ref, wall):
 
 
 class Loader(object):
-    def __init__(self, ctx, world, data, name):
+    def __init__(self, ctx, world, data, name, archive_order="links_last"):
         from dateutil import tz
         import dateutil.zoneinfo as zi
         self.tz = tz
@@ -523,7 +541,9 @@ class Loader(object):
                 ZW.simple_zone(7))},
             links=[("Area/Link", "Area/Zone", "sym"),
                    ("Area/Hard", "Area/Zone", "hard")],
-            metadata=b'{"tzversion": "sim"}')
+            metadata=b'{"tzversion": "sim"}', order=archive_order)
+        if archive_order != "links_last":
+            ctx.probe("archive_order." + archive_order)
         world.bundle = ZW.make_archive({"Bundle/Zone": data})
         self.zif = None
         self.stream_fault = None
@@ -532,6 +552,14 @@ class Loader(object):
                      for (off, isdst, abbr) in ref.types]
         self.sibling = tzif.make_tzif(ref.trans, ref.idx, sib_types,
                                       ref.isstd, ref.isgmt)
+        # another zone in exactly as many bytes as this one (bytes after the
+        # version-1 block are not part of what dateutil decodes)
+        alt = tzif.make_tzif(ref.trans, ref.idx,
+                             [(off + 1800, isdst, abbr)
+                              for (off, isdst, abbr) in ref.types],
+                             ref.isstd, ref.isgmt)
+        self.alt = alt + b"\0" * (len(data) - len(alt)) \
+            if len(alt) <= len(data) else None
 
     def zoneinfofile(self):
         if self.zif is None:
@@ -638,7 +666,8 @@ def execute(cls, scenario, ctx):
     ref = tzif.Ref(data)
     classify_shapes(ref, ctx)
     ctx.event("zone", label, len(ref.trans), len(ref.types))
-    L = Loader(ctx, world, data, label)
+    L = Loader(ctx, world, data, label,
+               scenario.get("archive_order", "links_last"))
     instants = probe_instants(ref, scenario["probe_seed"],
                               scenario.get("all_transitions"))
     fault_class = cls == "faults"
@@ -683,15 +712,21 @@ def execute(cls, scenario, ctx):
                     blob = pickle.dumps(src, op[2])
                     saved = world.fs.files[path]
                     if op[3] == "replace":
-                        world.fs.files[path] = ZW.zone_bytes(
-                            ZW.simple_zone(21))
+                        world.fs.replace_file(path, ZW.zone_bytes(
+                            ZW.simple_zone(21)))
                     else:
                         del world.fs.files[path]
                     try:
                         z = pickle.loads(blob)
                     finally:
-                        world.fs.files[path] = saved
+                        world.fs.replace_file(path, saved)
                     ctx.probe("load.pickle_after_file_changed")
+                elif op[0] == "reload_replaced":
+                    loaded.append((op, None))
+                    if fault_class or L.alt is None:
+                        continue
+                    reload_replaced(ctx, world, L, op, instants, label)
+                    continue
                 elif op[0] in ("pickle", "copy", "deepcopy"):
                     if op[1] >= len(loaded) or loaded[op[1]][1] is None:
                         loaded.append((op, None))
@@ -792,6 +827,54 @@ def execute(cls, scenario, ctx):
         ctx.violation("liveness.budget", dict(msg=str(e), zone=label))
     finally:
         K.set_budget(None)
+
+
+def reload_replaced(ctx, world, L, op, instants, label):
+    """Load by name, replace the file by another zone of the same length
+    (same or new stat stamp), load by name again: the second load must be
+    the zone a stream load of the new bytes gives."""
+    tz = L.tz
+    _, via, stamp = op
+
+    def by_name():
+        if via == "tzfile_path":
+            return tz.tzfile(L.p1)
+        if via == "nocache_abs":
+            return tz.gettz.nocache(L.p1)
+        if via == "nocache_name":
+            return tz.gettz.nocache("Area/Zone")
+        tz.gettz.cache_clear()
+        return tz.gettz("Area/Zone")
+
+    before = by_name()
+    saved = world.fs.files[L.p1]
+    world.fs.replace_file(L.p1, L.alt, same_stamp=(stamp == "same_stamp"))
+    ctx.fault("file_replaced." + stamp)
+    try:
+        after = by_name()
+    finally:
+        world.fs.replace_file(L.p1, saved)
+    if via == "after_clear":
+        tz.gettz.cache_clear()
+    with K.mute():
+        want = tz.tzfile(io.BytesIO(L.alt))
+        ctx.checks += 1
+        ctx.event("reload_replaced", via, stamp)
+        bad = None
+        if not isinstance(after, tz.tzfile):
+            bad = dict(got=repr(after))
+        elif not (after == want and want == after):
+            bad = dict(got="unequal to a stream load of the new bytes",
+                       equal_to_old=bool(after == before))
+        else:
+            for ts in instants[:80]:
+                g, w = ZW.observe(after, ts), ZW.observe(want, ts)
+                if g != w:
+                    bad = dict(ts=ts, got=g, want=w)
+                    break
+        if bad is not None:
+            bad.update(via=via, stamp=stamp, zone=label)
+            ctx.violation("C06.stale_after_file_replaced", bad)
 
 
 def execute_threads(scenario, ctx, world, L, data, ref, instants, label):
